@@ -467,6 +467,48 @@ Proof.
   - rewrite (get_ms_set_other s s' m x' m' E Hne) in Hy. apply (Hnn m' y Hy p' Hp').
 Qed.
 
+Definition ob_next (s : chain) (m : Z) (x : mstate) (alls : bool) (ps : list part) (bk1 : bank) (subs1 : list subacc) : chain :=
+  chain_upd (with_subs s subs1) bk1
+    (set_ms_list (c_ms s) m
+       (mstate_upd x (ms_mkt x)
+          (book_upd (ms_book x) (if alls then BK_SETTLED else bk_status (ms_book x)) (bk_partcnt (ms_book x)) (bk_queues (ms_book x)) ps
+                    (bk_expo (ms_book x)) (bk_expo_ix (ms_book x)) (bk_hist (ms_book x)) (bk_pairs (ms_book x)))
+          (ms_bets x) (ms_pending x) (ms_deps x) (ms_wds x)))
+    (c_mqueue s) (if alls then remove_uid m (c_bqueue s) else c_bqueue s) (c_betcnt s) (c_uid2id s) (c_settledix s) (c_grants s).
+
+(* one iteration of the order-book end blocker *)
+Lemma ob_iter_xinv s m x limit alls cnt ps effs bk1 subs1 :
+  xinv s -> NoDup (map sa_id (c_subs s)) -> parts_nonneg s ->
+  get_ms s m = Some x -> bk_status (ms_book x) = BK_RESOLVED ->
+  batch_parts (bk_parts (ms_book x)) (k_status (ms_mkt x)) (k_creator (ms_mkt x)) limit 0 = Some (alls, cnt, ps, effs) ->
+  apply_effects (c_bank s) (c_subs s) effs = Some (bk1, subs1) ->
+  xinv (ob_next s m x alls ps bk1 subs1) /\ NoDup (map sa_id subs1) /\ parts_nonneg (ob_next s m x alls ps bk1 subs1).
+Proof.
+  intros I Hnd Hnn Hg ER EB EA.
+  destruct (apply_effects_spent _ _ _ _ _ Hnd EA) as [Hnd1 SR].
+  pose proof (batch_parts_qsig _ _ _ _ _ _ _ _ _ EB) as Hq. pose proof (batch_parts_psig _ _ _ _ _ _ _ _ _ EB) as Hps.
+  pose proof (get_ms_in _ _ _ Hg) as Hin.
+  split; [|split; [exact Hnd1|]].
+  - destruct I as [ND B C L]. unfold ob_next. constructor; cbn [c_bqueue c_ms c_subs c_subnext chain_upd with_subs chain_set_subs].
+    + destruct alls; [apply remove_first_nodup; exact ND|exact ND].
+    + intros m' Hm'. assert (Hm0 : In m' (c_bqueue s)) by (destruct alls; [eapply remove_first_sub; exact Hm'|exact Hm']).
+      destruct (Z.eq_dec m' m) as [->|Hne].
+      * destruct alls; [exfalso; exact (remove_first_notin m _ ND Hm')|].
+        eexists. split; [unfold get_ms, findb; cbn [c_ms chain_upd]; rewrite get_set_same; reflexivity|exact ER].
+      * destruct (B m' Hm0) as (x0 & Hg0 & Hs0). exists x0. split; [|exact Hs0].
+        unfold get_ms, findb in *. cbn [c_ms chain_upd]. rewrite (get_set_other _ _ _ _ Hne). exact Hg0.
+    + intros e He. unfold set_ms_list in He. apply in_upd in He. destruct He as [->|He]; [|apply C; exact He].
+      cbn [snd ms_book mstate_upd bk_parts book_upd]. intros p' Hp'. destruct (map_eq_in psig _ _ p' Hps Hp') as (p & Hp & E).
+      unfold psig in E. injection E as _ Eo _ _ _ _ _ _. rewrite <- Eo. apply (C (m, x) Hin). exact Hp.
+    + intros y1 Hy1. destruct (SR y1 Hy1) as (y & Hy & Ei & Es). assert (Ea : sub_addr y1 = sub_addr y) by (unfold sub_addr; congruence).
+      rewrite Ea, (locked_set _ _ _ _ _ (get_ms_find _ _ _ Hg)). cbn [ms_book mstate_upd].
+      pose proof (batch_parts_unsp _ (sub_addr y) _ _ _ _ _ _ _ _ EB (Hnn m x Hg)) as U.
+      unfold lock_book at 1 2. cbn [bk_parts book_upd]. pose proof (L y Hy). lia.
+  - eapply (parts_nonneg_upd s _ m x _ Hg); [reflexivity| |exact Hnn].
+    cbn [ms_book mstate_upd bk_parts book_upd]. intros p' Hp'. destruct (map_eq_in qsig _ _ p' Hq Hp') as (p & Hp & E).
+    unfold qsig in E. injection E as _ _ E3 E4 _. exists p. repeat split; congruence.
+Qed.
+
 Lemma ob_endblock_xinv fuel : forall s n i s', ob_endblock fuel s n i = Some s' -> xinv s -> NoDup (map sa_id (c_subs s)) -> parts_nonneg s -> xinv s'.
 Proof.
   induction fuel as [|f IH]; intros s n i s' H I Hnd Hnn; cbn [ob_endblock] in H.
@@ -477,29 +519,8 @@ Proof.
     destruct (negb (bk_status (ms_book x) =? BK_RESOLVED)) eqn:ER; [discriminate|]. apply negb_false_iff, Z.eqb_eq in ER.
     destruct (batch_parts _ _ _ _ _) as [[[[alls cnt] ps] effs]|] eqn:EB; [|discriminate].
     destruct (apply_effects (c_bank s) (c_subs s) effs) as [[bk1 subs1]|] eqn:EA; [|discriminate].
-    destruct (apply_effects_spent _ _ _ _ _ Hnd EA) as [Hnd1 SR].
-    pose proof (batch_parts_qsig _ _ _ _ _ _ _ _ _ EB) as Hq. pose proof (batch_parts_psig _ _ _ _ _ _ _ _ _ EB) as Hps.
-    pose proof (get_ms_in _ _ _ Hg) as Hin.
-    eapply IH; [exact H| | |].
-    + destruct I as [ND B C L]. constructor; cbn [c_bqueue c_ms c_subs c_subnext chain_upd with_subs chain_set_subs].
-      * destruct alls; [apply remove_first_nodup; exact ND|exact ND].
-      * intros m' Hm'. assert (Hm0 : In m' (c_bqueue s)) by (destruct alls; [eapply remove_first_sub; exact Hm'|exact Hm']).
-        destruct (Z.eq_dec m' m) as [->|Hne].
-        -- destruct alls; [exfalso; exact (remove_first_notin m _ ND Hm')|].
-           eexists. split; [unfold get_ms, findb; cbn [c_ms chain_upd]; rewrite get_set_same; reflexivity|exact ER].
-        -- destruct (B m' Hm0) as (x0 & Hg0 & Hs0). exists x0. split; [|exact Hs0].
-           unfold get_ms, findb in *. cbn [c_ms chain_upd]. rewrite (get_set_other _ _ _ _ Hne). exact Hg0.
-      * intros e He. unfold set_ms_list in He. apply in_upd in He. destruct He as [->|He]; [|apply C; exact He].
-        cbn [snd ms_book mstate_upd bk_parts book_upd]. intros p' Hp'. destruct (map_eq_in psig _ _ p' Hps Hp') as (p & Hp & E).
-        unfold psig in E. injection E as _ Eo _ _ _ _ _ _. rewrite <- Eo. apply (C (m, x) Hin). exact Hp.
-      * intros y1 Hy1. destruct (SR y1 Hy1) as (y & Hy & Ei & Es). assert (Ea : sub_addr y1 = sub_addr y) by (unfold sub_addr; congruence).
-        rewrite Ea, (locked_set _ _ _ _ _ (get_ms_find _ _ _ Hg)). cbn [ms_book mstate_upd].
-        pose proof (batch_parts_unsp _ (sub_addr y) _ _ _ _ _ _ _ _ EB (Hnn m x Hg)) as U.
-        unfold lock_book at 1 2. cbn [bk_parts book_upd]. pose proof (L y Hy). lia.
-    + cbn [c_subs chain_upd with_subs chain_set_subs]. exact Hnd1.
-    + eapply (parts_nonneg_upd s _ m x _ Hg); [reflexivity| |exact Hnn].
-      cbn [ms_book mstate_upd bk_parts book_upd]. intros p' Hp'. destruct (map_eq_in qsig _ _ p' Hq Hp') as (p & Hp & E).
-      unfold qsig in E. injection E as _ _ E3 E4 _. exists p. repeat split; congruence.
+    destruct (ob_iter_xinv s m x _ alls cnt ps effs bk1 subs1 I Hnd Hnn Hg ER EB EA) as (I1 & N1 & P1).
+    eapply IH; [exact H|exact I1|exact N1|exact P1].
 Qed.
 
 (* ---- every operation ----------------------------------------------------------------------------------------------------------------------- *)
